@@ -16,6 +16,7 @@ PROP = "C10"
 VALUES = {
     "v1": {"n": 3, "tag": 5, "time": 3000},
     "v2": {"n": 9, "tag": 6, "time": 10, "metadata": ["x", {"y": 1}], "raw_metadata": b"\x01"},
+    "v1b": {"n": 3, "tag": 5, "time": 77, "metadata": {"same-bytes-as": "v1"}},   # same content as v1, other time/metadata
 }
 
 
@@ -36,6 +37,8 @@ class C10Spec(seqx.Spec):
             for v in ("v1", "v2"):
                 for side in self.sides:
                     out.append({"t": "W", "key": k, "val": v, "side": side, "how": "session"})
+        for k in self.keys[:2]:
+            out.append({"t": "W", "key": k, "val": "v1b", "side": self.sides[-1], "how": "session"})
         for k in self.keys:
             for side in self.sides:
                 out.append({"t": "R", "key": k, "side": side})
